@@ -42,7 +42,7 @@ DATETIMES = [datetime.datetime(2001, 1, 1, 10, 0, 0), datetime.datetime(2001, 1,
 DATETIME_OFFSET_SECONDS = datetime.datetime(1930, 1, 1, 10, 0, 0, tzinfo=datetime.timezone(datetime.timedelta(seconds=3661)))
 PATHS = [pathlib.Path('a/b'), pathlib.Path('/abs/x y'), pathlib.Path('.'), pathlib.Path('1'), pathlib.Path('true'),
          pathlib.Path('~'), pathlib.Path('~/data'), pathlib.Path('~root/x'), pathlib.Path('a/../b'), pathlib.Path('..'),
-         pathlib.Path('$HOME/x'), pathlib.Path('a b '), pathlib.Path('é/ü'), pathlib.Path('null'), pathlib.Path('1e5'), pathlib.Path('a: b')]
+         pathlib.Path('$HOME/x'), pathlib.Path('a b '), pathlib.Path('é/ü'), pathlib.Path('null'), pathlib.Path('1e5'), pathlib.Path('a: b'), pathlib.Path('d\U0001F600/f')]
 
 
 def number_shapes():
